@@ -245,3 +245,16 @@ Example smart_roundtrip_ex :
   node_ids (get_rc (its_construct ex_r ex_p (union_pairs ex_r ex_p))) = [1; 2; 3]%N /\
   adj (gml_to_its (smart_to_gml ex_r ex_p (union_pairs ex_r ex_p) true false false)) 1%N 3%N = Some (EA (Some (OP 0 2)) (Some (-2))).
 Proof. vm_compute. repeat split. Qed.
+
+(** non-vacuity of the literal route equality (proof/C10_Routes.v) and of the reindexed centre routes on the same reaction *)
+Example two_routes_string_its_ex :
+  smart_to_gml ex_r ex_p (union_pairs ex_r ex_p) true true false
+  = its_to_gml (its_construct ex_r ex_p (union_pairs ex_r ex_p)) true true false /\
+  List.length (flat_map snd (smart_to_gml ex_r ex_p (union_pairs ex_r ex_p) true true false)) = 7%nat.
+Proof. split; [apply two_routes_string_its|vm_compute; reflexivity]. Qed.
+Definition ex_I : gr := its_construct ex_r ex_p (union_pairs ex_r ex_p).
+Example two_routes_centre_reindex_ex :
+  gwfb ex_I = true /\ all_tgh ex_I = true /\ its_ok (get_rc ex_I) = true /\
+  map (mapget (enum_from 1%N (node_ids (get_rc ex_I)))) (node_ids (get_rc ex_I)) = [1; 2; 3]%N /\
+  has_node ex_I 4 = true /\ has_node (gml_to_its (its_to_gml ex_I true true false)) 4 = false.
+Proof. vm_compute. repeat split. Qed.
